@@ -46,6 +46,9 @@ pub enum Mutation {
     Append { n: u32 },
     Random { len: u32 },
     OtherHash,
+    /// several edits of one footer at once: version bytes (which: 0 footer, 1 hash section, 2 boundary section) and
+    /// u32 fields (same field list as SetFooterU32; `delta` adds to the stored value instead of replacing it)
+    FooterEdit { versions: Vec<(u8, u8)>, u32s: Vec<(u32, u32, bool)> },
 }
 
 #[derive(Clone, Debug, Serialize, Deserialize, PartialEq)]
@@ -422,6 +425,34 @@ fn apply_mutation(b: &Built, m: &Mutation) -> (Vec<u8>, H) {
                 bytes[at..at + 4].copy_from_slice(&value.to_le_bytes());
             }
         },
+        Mutation::FooterEdit { versions, u32s } => {
+            let n = b.chunks.len();
+            let fs = section_len;
+            let mut fields: Vec<usize> = vec![fs + 48, fs + 52 + 32 * n + 8];
+            for k in 0..2 * n {
+                fields.push(fs + 52 + 32 * n + 12 + 4 * k);
+            }
+            let tail = fs + 52 + 32 * n + 12 + 8 * n;
+            fields.extend_from_slice(&[tail, tail + 4, tail + 8, bytes.len() - 4]);
+            for (which, v) in versions {
+                let at = match which % 3 {
+                    0 => fs + 7,
+                    1 => fs + 47,
+                    _ => fs + 52 + 32 * n + 7,
+                };
+                if at < bytes.len() {
+                    bytes[at] = *v;
+                }
+            }
+            for (field, value, delta) in u32s {
+                let at = fields[*field as usize % fields.len()];
+                if at + 4 <= bytes.len() {
+                    let old = u32::from_le_bytes(bytes[at..at + 4].try_into().unwrap());
+                    let new = if *delta { old.wrapping_add(*value) } else { *value };
+                    bytes[at..at + 4].copy_from_slice(&new.to_le_bytes());
+                }
+            }
+        },
         Mutation::StripFooter => bytes.truncate(section_len),
         Mutation::Append { n } => {
             let mut r = Rng::new(*n as u64);
@@ -630,6 +661,20 @@ fn run_c08(p: &Plan, rep: &mut RunReport) {
         for l in 0..b.bytes.len() {
             judge(rep, p, &b, &Mutation::Truncate { len: l as u64 }, &format!("truncate to {l}"));
         }
+        // pairs: every section-version byte set to an older / newer value together with every u32 footer field edited
+        // (a version byte can switch a comparison off; the edited field is then what the validator must still catch)
+        let n_fields = 2 + 2 * parsed.chunks.len() + 4;
+        for which in 0..3u8 {
+            for v in [0u8, 2] {
+                judge(rep, p, &b, &Mutation::FooterEdit { versions: vec![(which, v)], u32s: vec![] }, &format!("version byte {which} := {v}"));
+                for f in 0..n_fields as u32 {
+                    for (val, delta) in [(0u32, false), (1, true), (0xFFFF_FFFF, false)] {
+                        judge(rep, p, &b, &Mutation::FooterEdit { versions: vec![(which, v)], u32s: vec![(f, val, delta)] }, &format!("version byte {which} := {v}, field {f} {}{val}", if delta { "+" } else { ":= " }));
+                    }
+                }
+            }
+        }
+        rep.count("enumerated_version_field_pairs", 6 * n_fields as u64 * 3);
         rep.count("enumerated_objects", 1);
         rep.count("enumerated_offsets", offs.len() as u64 + b.bytes.len() as u64);
     }
@@ -643,10 +688,18 @@ fn gen(seed: u64, run: u64, focus: &str, tier: Tier) -> Plan {
     let mut rng = Rng::stream(seed, run, "xorb");
     if focus == "C07" {
         let big = rng.chance(1, if tier == Tier::Quick { 12 } else { 6 });
+        // up to the maximum number of chunks a xorb may hold (small chunks keep such runs cheap)
+        let huge = rng.chance(1, if tier == Tier::Quick { 150 } else { 50 });
         let spec = XorbSpec {
             seed: rng.next_u64(),
-            n_chunks: if big { rng.log_range(1, 600) as u32 } else { rng.log_range(1, 14) as u32 },
-            len_style: if big { rng.below(3) as u32 } else { rng.below(5) as u32 },
+            n_chunks: if huge {
+                *rng.pick(&[1151u32, 1152, 1153, 2048, 8191, 8192, 0, 0, 0]).max(&(rng.log_range(600, 8192) as u32))
+            } else if big {
+                rng.log_range(1, 600) as u32
+            } else {
+                rng.log_range(1, 14) as u32
+            },
+            len_style: if huge { 0 } else if big { rng.below(3) as u32 } else { rng.below(5) as u32 },
             content_mix: rng.below(4) as u32,
             scheme: rng.below(4) as u32,
         };
@@ -668,7 +721,18 @@ fn gen(seed: u64, run: u64, focus: &str, tier: Tier) -> Plan {
         content_mix: rng.below(4) as u32,
         scheme: if rng.chance(2, 3) { 0 } else { rng.below(4) as u32 },
     };
-    let mutation = match rng.below(12) {
+    let mutation = match rng.below(14) {
+        12 | 13 => {
+            let mut versions = Vec::new();
+            for _ in 0..rng.range(1, 2) {
+                versions.push((rng.below(3) as u8, *rng.pick(&[0u8, 0, 2, 255])));
+            }
+            let mut u32s = Vec::new();
+            for _ in 0..rng.range(0, 2) {
+                u32s.push((rng.below(64) as u32, *rng.pick(&[0u32, 1, 1, 0xFFFF_FFFF, 7, 1 << 20]), rng.chance(1, 2)));
+            }
+            Mutation::FooterEdit { versions, u32s }
+        },
         0 | 1 => Mutation::Xor { off: rng.next_u64(), mask: *rng.pick(&[1u8, 0x80, 0xFF, 0x10]) },
         2 => Mutation::Truncate { len: rng.next_u64() },
         3 => Mutation::DropChunk { i: rng.below(16) as u32, refooter: rng.chance(1, 2) },
@@ -763,9 +827,9 @@ impl Engine for XorbEngine {
     }
     fn rule(&self, focus: &str) -> String {
         if focus == "C07" {
-            "Each run: a seeded chunk list (1..600 chunks, lengths 1 B..128 KiB incl. every residue mod 4, random / compressible / float-like content) is serialised by the real code under None / LZ4 / BG4+LZ4 / automatic, parsed by the independent parser, and read back through a seekable reader with seeded short reads (whole object, every chunk range up to 12 chunks, sampled beyond) and through the three chunk decoders (sync short reads; tokio AsyncRead with short reads and Pending; Stream<Bytes> cut at seeded offsets incl. empty fragments). Non-trivial: a compressed scheme was actually stored and a reader delivered fragments. Distinct: (spec seed, scheme, reader seed, reader mode, chunk count).".into()
+            "Each run: a seeded chunk list (1..600 chunks, one run in 150 (quick) or 50 (thorough) 600..8192 small chunks incl. 1151/1152/1153 and the 8192 maximum; lengths 1 B..128 KiB incl. every residue mod 4, random / compressible / float-like content) is serialised by the real code under None / LZ4 / BG4+LZ4 / automatic, parsed by the independent parser, and read back through a seekable reader with seeded short reads (whole object, every chunk range up to 12 chunks, sampled beyond) and through the three chunk decoders (sync short reads; tokio AsyncRead with short reads and Pending; Stream<Bytes> cut at seeded offsets incl. empty fragments). Non-trivial: a compressed scheme was actually stored and a reader delivered fragments. Distinct: (spec seed, scheme, reader seed, reader mode, chunk count).".into()
         } else {
-            "Each run: a valid xorb (with its own hash and with another hash) plus one seeded mutant (byte flip, truncation, dropped/duplicated/swapped chunks with or without a rebuilt footer, overwritten u32 footer fields incl. counts and section offsets, stripped footer, appended bytes, random string); one run in 40 additionally enumerates, for an object of 1-4 small chunks, every single-byte flip (3 masks) of every chunk-header and footer byte and truncation at every offset. Both validators and the footer parser run under catch_unwind with a counting allocator; every acceptance is re-verified independently. Non-trivial: the mutant differs from the original and is at least 8 bytes long (parsing gets past the ident check). Distinct: (spec seed, mutation, enumerate).".into()
+            "Each run: a valid xorb (with its own hash and with another hash) plus one seeded mutant (byte flip, truncation, dropped/duplicated/swapped chunks with or without a rebuilt footer, overwritten u32 footer fields incl. counts and section offsets, combined footer edits (section-version bytes together with u32 fields), stripped footer, appended bytes, random string); one run in 40 additionally enumerates, for an object of 1-4 small chunks, every single-byte flip (3 masks) of every chunk-header and footer byte, truncation at every offset, and every pair (one of the three version bytes set to 0 or 2) x (one u32 footer field zeroed, incremented or saturated). Both validators and the footer parser run under catch_unwind with a counting allocator; every acceptance is re-verified independently. Non-trivial: the mutant differs from the original and is at least 8 bytes long (parsing gets past the ident check). Distinct: (spec seed, mutation, enumerate).".into()
         }
     }
     fn real_vs_stub(&self) -> Value {
@@ -773,7 +837,7 @@ impl Engine for XorbEngine {
     }
     fn assumptions(&self, focus: &str) -> Vec<String> {
         if focus == "C08" {
-            vec!["Enumeration is complete over single-byte flips (3 masks) of header/footer bytes and over truncation offsets for the enumerated small objects only; larger objects and multi-byte mutations are sampled.".into(), "C08.d decodes compressed chunks with /repo's own chunk decoder (uncompressed chunks are decoded independently).".into()]
+            vec!["Enumeration is complete over single-byte flips (3 masks) of header/footer bytes, over truncation offsets and over (version byte, u32 field) pairs for the enumerated small objects only; larger objects and multi-byte mutations are sampled.".into(), "C08.d decodes compressed chunks with /repo's own chunk decoder (uncompressed chunks are decoded independently).".into()]
         } else {
             vec!["Inputs are seeded generation; the simulated dimension is reader delivery (DESIGN §7 C07).".into()]
         }
